@@ -169,6 +169,15 @@ func TestReplay(t *testing.T) {
 		vstat.For(prop).Report(t, "TestReplay", sc, runShapeCase(sc))
 		return
 	}
+	if env, err := vstat.LoadReplay(p, nil); err == nil && env.Test == "TestC14Held" {
+		var hc heldCase
+		if _, err := vstat.LoadReplay(p, &hc); err != nil {
+			t.Fatalf("cannot load %s: %v", p, err)
+		}
+		v, _ := runHeldCase(hc)
+		vstat.For(prop).Report(t, "TestReplay", hc, v)
+		return
+	}
 	if env, err := vstat.LoadReplay(p, nil); err == nil && env.Test == "TestC14Independent" {
 		var pc parCase
 		if _, err := vstat.LoadReplay(p, &pc); err != nil {
